@@ -11,6 +11,10 @@ import (
 func (ex *Exec) unop(fr *frame, instr *ssa.UnOp, x Value) Value {
 	switch instr.Op {
 	case token.MUL: // load
+		if sp, ok := x.(*SymPtr); ok {
+			v, _ := ex.symSelect(sp.arr, sp.idx)
+			return v
+		}
 		p, ok := x.(*Value)
 		if !ok {
 			panic(engineError{fmt.Sprintf("load through %T in %s", x, fr.fn)})
